@@ -19,6 +19,14 @@ type layoutSpec struct {
 	Leaves        [][]models.ShardID `json:"leaves"`
 	Intermediates int                `json:"intermediates"`
 	Isolated      bool               `json:"isolated"` // every leaf has its own database (own metadata)
+	// ComputeCap caps the number of compute targets the chooser asks flow.BuildPhysicalPlan for (0 = what the root asks
+	// for, 5 for group by). With a cap of 1 and several live brokers the plan is the one coordinator/root's
+	// Choose(database, 1) gets from a broker cluster: ONE compute target picked among several live brokers - the only
+	// plans with more live brokers than targets that answer on the unchanged tree.
+	ComputeCap int `json:"compute_cap,omitempty"`
+	// MaxQueries / MaxPerms bound the statements and delivery orders of an additional layout (0 = all).
+	MaxQueries int `json:"-"`
+	MaxPerms   int `json:"-"`
 	// Aware: the partition was derived from where the data lives (a leaf made of the shards without series of the main metric)
 	Aware string `json:"aware,omitempty"`
 }
@@ -36,8 +44,27 @@ func (l layoutSpec) String() string {
 	if l.Isolated {
 		iso = " isolated-metadata"
 	}
-	return fmt.Sprintf("%s: leaves %s intermediates=%d%s", l.Name, strings.Join(parts, " "), l.Intermediates, iso)
+	capped := ""
+	if l.ComputeCap > 0 {
+		capped = fmt.Sprintf(" compute-targets<=%d", l.ComputeCap)
+	}
+	return fmt.Sprintf("%s: leaves %s intermediates=%d%s%s", l.Name, strings.Join(parts, " "), l.Intermediates, capped, iso)
 }
+
+// computeTargets is the number of compute targets the root's plan has in this layout (the root asks for 5 for group by).
+func (l layoutSpec) computeTargets() int {
+	n := l.Intermediates
+	if n > rootComputeNodes {
+		n = rootComputeNodes
+	}
+	if l.ComputeCap > 0 && n > l.ComputeCap {
+		n = l.ComputeCap
+	}
+	return n
+}
+
+// rootComputeNodes is what query/context/root_metric_context.go MakePlan asks the chooser for when the statement groups.
+const rootComputeNodes = 5
 
 func (l layoutSpec) nodeLayout() node.Layout {
 	out := node.Layout{Intermediates: l.Intermediates}
@@ -53,11 +80,14 @@ func (l layoutSpec) kind() string {
 	if len(l.Leaves) > 1 {
 		k = "several-leaves"
 	}
-	switch {
-	case l.Intermediates == 1:
+	switch n := l.computeTargets(); {
+	case n == 1:
 		k += "+one-compute-target"
-	case l.Intermediates > 1:
+	case n > 1:
 		k += "+several-compute-targets"
+	}
+	if l.Intermediates > l.computeTargets() {
+		k += "-of-more-live-brokers"
 	}
 	if l.Isolated {
 		k = "isolated-metadata/" + k
@@ -277,6 +307,8 @@ func (s *permScheduler) messages() []*node.Msg {
 // than one node is wanted and more than one storage node holds shards, otherwise one target per storage node) and
 // records what was produced, so that a verdict can be classified by the plan that was really used.
 type planRecorder struct {
+	// cap: see layoutSpec.ComputeCap
+	cap   int
 	mu    sync.Mutex
 	plans []*models.PhysicalPlan
 	nodes []int
@@ -293,6 +325,9 @@ func (r *planRecorder) choose(c *node.Cluster, database string, numOfNodes int) 
 	}
 	var plan *models.PhysicalPlan
 	if live := ch.GetLiveNodes(); numOfNodes > 1 && len(replicas) > 1 && len(live) > 0 {
+		if r.cap > 0 && numOfNodes > r.cap {
+			numOfNodes = r.cap
+		}
 		plan = flow.BuildPhysicalPlan(database, live, numOfNodes)
 	} else {
 		plan = ch.LeafPlan(database)
